@@ -4,9 +4,9 @@ CONSTANTS
   Starts <- StartsUp
   Certs <- BoolT
   Tmpls <- TmplBoth
-  Drc0 <- DrcAll
+  Drc0 <- DrcNamed
   EnvKinds <- EnvAll
-  Interf <- InterfAll
+  Interf <- InterfDeps
   MaxEdits = 2
   MaxFaults = 1
   MaxRecs = 2
